@@ -797,4 +797,168 @@ Proof.
       rewrite (expected_name Hh dge cname _ _ _ _ F E0). reflexivity.
 Qed.
 
+(** [r1] is the completed state [t] except that the conflict copy [l] at [q] is
+    missing on side [sd] and in the record *)
+Definition one_sided_copy (t r1 : state) (sd : side) (q : K) (l : content) : Prop :=
+  (forall x, x <> q -> tA r1 !! x = tA t !! x /\ tB r1 !! x = tB t !! x /\
+                      base_at (arch r1) x = base_at (arch t) x) /\
+  tA t !! q = Some l /\ tB t !! q = Some l /\
+  side_tree sd r1 !! q = None /\ side_tree (other sd) r1 !! q = Some l /\ base_at (arch r1) q = None.
+
+(** the next run propagates the copy back and records it: exit status 0 *)
+Lemma one_sided_copy_rerun (t r1 : state) sd q l :
+  tB t = tA t -> arch t = Some (Hh <$> tA t) -> one_sided_copy t r1 sd q l ->
+  (bisync_run r1).1.1 = t /\ (bisync_run r1).1.2 = ExitOk.
+Proof.
+  intros Eb Ez (Ox & Ta & Tb & O1 & O2 & O3).
+  assert (Et : t = {| tA := tA t; tB := tA t; arch := Some (Hh <$> tA t) |}).
+  { destruct t as [A B z]. cbn in *. subst. reflexivity. }
+  rewrite Et at 1. apply run_no_conflicts.
+  - intros p x y Ea Eb' _. destruct (decide (p = q)) as [->|N].
+    + destruct sd; cbn in O1, O2; congruence.
+    + destruct (Ox p N) as (Xa & Xb & _). rewrite Eb in Xb. congruence.
+  - intros p. destruct (decide (p = q)) as [->|N].
+    + destruct (conflict r1 q) as [[q' l']|] eqn:Ec; [|reflexivity]. exfalso.
+      apply (conflict_spec Hh dge cname) in Ec as (x & y & Ea & Eb' & _).
+      destruct sd; cbn in O1, O2; congruence.
+    + apply conflict_equal_none. destruct (Ox p N) as (Xa & Xb & _). rewrite Eb in Xb. congruence.
+  - intros x. unfold BisyncProofs.fin. destruct (decide (x = q)) as [->|N].
+    + rewrite O3, Ta. destruct sd; cbn in O1, O2; rewrite O1, O2; cbn;
+        rewrite decide_False by discriminate; reflexivity.
+    + destruct (Ox x N) as (-> & -> & _). rewrite Eb. apply final_content_same.
+Qed.
+
+Lemma stale_run (s r : state) sd p0 q l :
+  HashOk s -> Fresh s -> conflict s p0 = Some (q, l) -> q ∉ keys s -> base_at (arch s) q = Some (Hh l) ->
+  leftover s r sd q l ->
+  (bisync_run r).1.2 <> ExitIoError /\
+  (run_state r = run_state s \/ one_sided_copy (run_state s) (run_state r) sd q l).
+Proof.
+  intros Hok F E0 Hq Hz Lo.
+  destruct (stale_rerun s r sd p0 q l Hok F E0 Hq Hz Lo) as (Ee & Lx & Q).
+  assert (Er : run_state r = {| tA := wA (wfinal r); tB := wB (wfinal r); arch := Some (wC (wfinal r)) |}).
+  { unfold BisyncStepsProofs.run_state. rewrite (run_unfold Hh dge cname kle r), Ee. reflexivity. }
+  split.
+  { rewrite (run_unfold Hh dge cname kle r), Ee. cbn [fst snd]. case_decide; discriminate. }
+  rewrite Er, (run_state_final s Hok F).
+  assert (T : forall x, wA (wfinal s) !! x = expected s x).
+  { intros x. apply (run_lookup Hh dge cname kle s Hok F x). }
+  pose proof (expected_name Hh dge cname _ _ _ _ F E0) as Eq.
+  destruct Q as [Q|Q]; unfold at_q in Q.
+  - left. injection Q as Qa Qb Qc.
+    f_equal; [| |f_equal]; apply map_eq; intros x; rewrite ?lookup_fmap, T;
+      (destruct (decide (x = q)) as [->|N]; [rewrite Eq; assumption|apply Lx, N]).
+  - right. split; [|cbn [tA tB arch base_at]; rewrite ?lookup_fmap, !T, Eq].
+    + intros x N. cbn [tA tB arch base_at]. rewrite ?lookup_fmap, T. apply Lx, N.
+    + split; [reflexivity|]. split; [reflexivity|].
+      destruct sd; injection Q as Qa Qb Qc; cbn [side_tree other tA tB]; auto.
+Qed.
+
+(** the stale window, read off a [Mid] state whose half-delivered conflict name
+    violates clause (1c) of [Fresh] *)
+Lemma mid_stale (s r : state) done p0 q0 l0 :
+  HashOk s -> Fresh s -> Mid s r done (Some (p0, q0, l0)) ->
+  tA r !! q0 <> tB r !! q0 -> base_at (arch s) q0 = Some (Hh l0) ->
+  tA s !! q0 = None /\ tB s !! q0 = None /\
+  exists sd, let s' := {| tA := delete q0 (tA r); tB := delete q0 (tB r); arch := arch r |} in
+    Mid s s' done None /\ leftover s' r sd q0 l0.
+Proof.
+  intros Hok F [Mz Md Mn Mc Mx [Hp0 E0]] Hne Hz.
+  destruct (proj1 F _ _ _ E0) as (Ha & Hb & Hzz). destruct Hzz as [Hzz|Hzz]; [|contradiction].
+  destruct (Mx q0) as [[Na Nb]|[[Sa Sb]|(_ & Pa & Pb)]]; [exfalso; congruence|exfalso; apply Hne; congruence|].
+  assert (Ea0 : tA s !! q0 = None).
+  { destruct Ha as [Ha|Ha]; [exact Ha|]. exfalso. apply Hne. destruct Pa as [Pa|Pa], Pb as [Pb|Pb]; congruence. }
+  assert (Eb0 : tB s !! q0 = None) by congruence.
+  split; [exact Ea0|]. split; [exact Eb0|].
+  rewrite Ea0 in Pa. rewrite Eb0 in Pb.
+  assert (Hsd : (tA r !! q0 = Some l0 /\ tB r !! q0 = None) \/ (tA r !! q0 = None /\ tB r !! q0 = Some l0)).
+  { destruct Pa as [Pa|Pa], Pb as [Pb|Pb]; auto; exfalso; apply Hne; congruence. }
+  assert (Nq : forall x, newat s r x -> x <> q0) by (intros x [Xa Xb] ->; apply Hne; congruence).
+  assert (M' : Mid s {| tA := delete q0 (tA r); tB := delete q0 (tB r); arch := arch r |} done None).
+  { split; cbn [tA tB arch].
+    + exact Mz.
+    + intros x Hx. pose proof (Md x Hx) as Nx. pose proof (Nq x Nx). unfold newat in *. cbn [tA tB].
+      rewrite !lookup_delete_ne by congruence. exact Nx.
+    + intros p x l Hp E. pose proof (Mn p x l Hp E) as Nx. pose proof (Nq x Nx). unfold newat in *. cbn [tA tB].
+      rewrite !lookup_delete_ne by congruence. exact Nx.
+    + intros p q l E Hp. assert (p <> q0).
+      { intros ->. rewrite (fresh_name_not_conflict Hh dge cname _ _ _ _ F E0) in E. discriminate. }
+      pose proof (Mc p q l E Hp) as Sx. unfold sameat in *. cbn [tA tB].
+      rewrite !lookup_delete_ne by congruence. exact Sx.
+    + intros x. destruct (decide (x = q0)) as [->|N].
+      * right. left. unfold sameat. cbn [tA tB]. rewrite !lookup_delete. auto.
+      * unfold newat, sameat. cbn [tA tB]. rewrite !lookup_delete_ne by congruence.
+        destruct (Mx x) as [?|[?|(? & _)]]; [auto|auto|contradiction].
+    + exact I. }
+  destruct Hsd as [[Xa Xb]|[Xa Xb]]; [exists SA|exists SB]; cbn zeta; (split; [exact M'|]);
+    (split; [reflexivity|]);
+    (split; [intros x N; cbn [tA tB]; rewrite !lookup_delete_ne by congruence; auto|]);
+    cbn [side_tree other tA tB]; auto.
+Qed.
+
+(** ** Recovery *)
+
+(** the stale record entries that open the window: a both-changed path whose
+    conflict name is absent from both trees but recorded with the loser's digest *)
+Definition stale_name (s : state) (p q : K) (l : content) : Prop :=
+  conflict s p = Some (q, l) /\ tA s !! q = None /\ tB s !! q = None /\ base_at (arch s) q = Some (Hh l).
+
+Theorem recovery_conflicts (s : state) ae k : HashOk s -> Fresh s ->
+  let r := recover (crash s ae k) in
+  let r1 := run_state r in
+  (bisync_run r).1.2 <> ExitIoError /\
+  (r1 = run_state s \/
+   exists sd p q l, stale_name s p q l /\ one_sided_copy (run_state s) r1 sd q l) /\
+  run_state r1 = run_state s /\ (bisync_run r1).1.2 = ExitOk.
+Proof.
+  intros Hok F. cbn zeta. set (r := recover (crash s ae k)).
+  destruct (rerun_final s Hok F) as [Rf1 Rf2].
+  assert (Good : forall done pend, Mid s r done pend -> pend_ok s r pend ->
+            (bisync_run r).1.2 <> ExitIoError /\
+            (run_state r = run_state s \/
+             exists sd p q l, stale_name s p q l /\ one_sided_copy (run_state s) (run_state r) sd q l) /\
+            run_state (run_state r) = run_state s /\ (bisync_run (run_state r)).1.2 = ExitOk).
+  { intros done pend M Po. destruct (mid_good s r done pend Hok F M Po) as (Hok' & F' & Ex).
+    destruct (same_expected_same_run s r Hok F Hok' F' Ex) as [-> Hne]. auto. }
+  destruct (crash_mid s ae k Hok F) as [(done & pend & M)|(Ea & Eb & _)]; fold r in M || fold r in Ea, Eb.
+  - destruct pend as [[[p0 q0] l0]|]; [|apply (Good done None M I)].
+    destruct (decide (tA r !! q0 = tB r !! q0)) as [Eq|Nq]; [apply (Good _ _ M); left; exact Eq|].
+    destruct (decide (base_at (arch s) q0 = Some (Hh l0))) as [Ez|Nz]; [|apply (Good _ _ M); right; exact Nz].
+    destruct (mid_stale s r done p0 q0 l0 Hok F M Nq Ez) as (Ea0 & Eb0 & sd & M' & Lo). cbn zeta in M', Lo.
+    set (s' := {| tA := delete q0 (tA r); tB := delete q0 (tB r); arch := arch r |}) in *.
+    destruct (mid_good s s' done None Hok F M' I) as (Hok' & F' & Ex).
+    destruct (same_expected_same_run s s' Hok F Hok' F' Ex) as [Rs _].
+    destruct M as [_ _ _ _ _ [Hp0 E0]].
+    assert (E0' : conflict s' p0 = Some (q0, l0)).
+    { rewrite <- E0. destruct (mid_conf _ _ _ _ M' _ _ _ E0 Hp0) as [Sa Sb].
+      apply conflict_ext; [assumption..|]. rewrite (mid_arch _ _ _ _ M'). reflexivity. }
+    assert (Hq' : q0 ∉ keys s').
+    { apply (not_elem_of_keys cname kle). cbn. rewrite !lookup_delete. auto. }
+    assert (Hz' : base_at (arch s') q0 = Some (Hh l0)) by (rewrite (mid_arch _ _ _ _ M'); exact Ez).
+    destruct (stale_run s' r sd p0 q0 l0 Hok' F' E0' Hq' Hz' Lo) as (Hne & Hr).
+    rewrite Rs in Hr. split; [exact Hne|]. destruct Hr as [->|Ho].
+    + auto.
+    + split; [right; exists sd, p0, q0, l0; split; [split; auto|exact Ho]|].
+      rewrite (run_state_final s Hok F) in Ho |- *.
+      exact (one_sided_copy_rerun {| tA := wA (wfinal s); tB := wA (wfinal s); arch := Some (Hh <$> wA (wfinal s)) |}
+               _ sd q0 l0 eq_refl eq_refl Ho).
+  - assert (Eb' : tB r = wA (wfinal s)).
+    { rewrite Eb. apply map_eq. intros x. destruct (run_lookup Hh dge cname kle s Hok F x) as (-> & -> & _). reflexivity. }
+    destruct (run_equal_trees r _ Ea Eb') as [R1 R2].
+    assert (E1 : run_state r = run_state s) by (rewrite (run_state_final s Hok F); exact R1).
+    rewrite E1. split; [rewrite R2; discriminate|]. auto.
+Qed.
+
+(** without stale record entries at conflict names ONE re-run reaches the state of
+    the uninterrupted run *)
+Corollary recovery_conflicts_one (s : state) ae k : HashOk s -> Fresh s ->
+  (forall p q l, conflict s p = Some (q, l) -> tA s !! q = None -> tB s !! q = None ->
+                 base_at (arch s) q <> Some (Hh l)) ->
+  run_state (recover (crash s ae k)) = run_state s.
+Proof.
+  intros Hok F Hns. destruct (recovery_conflicts s ae k Hok F) as (_ & [E|(sd & p & q & l & (E0 & Ea & Eb & Ez) & _)] & _).
+  - exact E.
+  - exfalso. exact (Hns p q l E0 Ea Eb Ez).
+Qed.
+
 End R.
